@@ -188,6 +188,7 @@ structure St where
   nr2l : Nat := 0
   returned : Bool := false
   hung : Bool := false            -- BidirectionalCopy has not returned under this schedule
+  copyErr : Bool := false         -- BidirectionalCopy returned a non-nil error (errors.Join of the two loops' errors)
   trace : List Action := []
 deriving Repr
 
@@ -267,10 +268,11 @@ def execStep (e : Env) (s : St) : Step → St
     let acts : List Action := [.copied c.rxR c.rxL] ++ (if c.cwR then [.closeWrite .right] else []) ++
       (if c.cwL then [.closeWrite .left] else [])
     if c.doneL && c.doneR then
-      { s with nl2r := c.counter .nl2r, nr2l := c.counter .nr2l, trace := s.trace ++ acts }
+      { s with nl2r := c.counter .nl2r, nr2l := c.counter .nr2l, copyErr := c.failL || c.failR, trace := s.trace ++ acts }
     else { s with returned := true, hung := true, trace := s.trace ++ acts ++ [.blocked] }
   | .addPayloadLen => setCounter s payloadAddedTo (· + s.req.payload.length)
   | .collect => s.emit (.collect s.req.user (getCounter s collectDown) (getCounter s collectUp))
+  | .returnIfCopyErr => if s.copyErr then s.ret else s    -- `if err != nil { log; return }` after the copy
 
 def runSteps (e : Env) : List Step → St → St
   | [], s => s
